@@ -94,8 +94,11 @@ func verifHarnessC10() {
 			// concrete key families: the target is one of the (long) pool keys itself
 			t = kp.keys[verifChoice("tki", kp.hot())]
 		} else {
-			tl := 1 + verifChoice("tlen", 2)
+			tl := verifChoice("tlen", 3) // 0, 1 or 2 bytes: the empty target is below every key
 			t = verifBytes("target", tl)
+			if tl == 0 && verifChoice("nil-target", 2) == 1 {
+				t = nil
+			}
 		}
 		// the property's own restriction: the target lies at or ahead of the cursor in iteration order
 		if pos < len(exp) && pos > 0 {
